@@ -925,6 +925,12 @@ def enum_limits(tier):
   for n in (0, 1, 255, 256, 1000):
     out.append(("dns-txt-%d" % n, [e, ip4, {"t": "udp", "sport": 53, "dport": 0xc001}, {"t": "dns", "id": 1, "qr": True, "an": [
         {"name": "t.example.com", "qtype": 16, "qclass": 1, "ttl": 1, "rd": {"raw": B(n)}}]}]))
+  for n in (900, 1100, 4000):            # a repeated name first written beyond offset n: its compression pointer needs more than 10 bits
+    out.append(("dns-pointer-beyond-%d" % n, [e, ip4, {"t": "udp", "sport": 53, "dport": 0xc001}, {"t": "dns", "id": 1, "qr": True, "an": [
+        {"name": "t.example.com", "qtype": 16, "qclass": 1, "ttl": 1, "rd": {"raw": B(n, 1)}},
+        {"name": "late.example.org", "qtype": 1, "qclass": 1, "ttl": 1, "rd": {"a": P.A1}},
+        {"name": "late.example.org", "qtype": 28, "qclass": 1, "ttl": 1, "rd": {"aaaa": P.S1}},
+        {"name": "x.late.example.org", "qtype": 5, "qclass": 1, "ttl": 1, "rd": {"name": "late.example.org"}}]}]))
   for n in (1, 2, 30):
     out.append(("dns-questions-%d" % n, [e, ip4, u, {"t": "dns", "id": 1, "q": [{"name": "h%d.example.com" % i, "qtype": 1, "qclass": 1} for i in range(n)]}]))
   # IPv6 extension headers: Hdr Ext Len 0..255 (8..2048 octets), chains
